@@ -234,11 +234,17 @@ def run_box(ctx, box, launches_spec, jobs, deadline, case_timeout, launch_timeou
             l = box.launch('r%d-%d-n%d-b%d-s%s-t%d' % (rnd, i, s['n'], s['bcast'], s['short'], s['threads']), s['n'], s['bcast'], s['short'], s['threads'], args, launch_timeout)
             l.meta['cases'] = cases; l.meta['spec'] = s; l.meta['batch'] = b
             L.append(l)
-        L.sort(key=lambda l: -l.n * len(l.meta['cases']))
+        if box.tier == 'thorough':
+            L.sort(key=lambda l: (l.n, -len(l.meta['cases'])))     # fewer ranks first: a deadline cut costs the n=4 part only
+        else:
+            L.sort(key=lambda l: -l.n * len(l.meta['cases']))
         if rnd == 1:
             # the points at which the model predicts the known finding run alone (one launch each), interleaved with the others
             L += predicted_launches()
             predicted_all = []
+        if deadline is not None:
+            for l in L:       # nothing outlives the deadline by more than a minute: a killed launch still reports the cases it completed
+                l.timeout = max(20, min(l.timeout or launch_timeout, deadline + 60 - time.time()))
         results, skip = mp.run_box(L, box.root, jobs=jobs, timeout=launch_timeout, deadline=deadline, confirm=False, max_ranks=48)
         for sk in skip:
             box.skipped += len(sk.meta['cases'])
@@ -256,7 +262,9 @@ def run_box(ctx, box, launches_spec, jobs, deadline, case_timeout, launch_timeou
             done, fails, stopped = box.account(res, cases)
             for c, msg in fails.items():
                 box.violations.append((box.replay_obj(res.launch.meta, c, msg), msg))
-            if stopped is not None:
+            if stopped is not None and deadline is not None and time.time() > deadline:
+                box.skipped += len(cases) - cases.index(stopped)
+            elif stopped is not None:
                 k = cases.index(stopped)
                 why = 'launch %s (rc %s); stderr: %s' % (res.status, res.rc, errlines(res.stderr))
                 r0 = res.ranks.get(0, {})
@@ -309,7 +317,7 @@ def check(ctx):
     t0 = time.time()
     if os.environ.get('C05_TIMES'):
         sys.stderr.write('build done at %.1fs\n' % (t0 - ctx.t0))
-    deadline = t0 + (70 if quick else 1050)
+    deadline = t0 + (70 if quick else 1000)
     specs = []
     allv = list(range(len(V)))
     cfgs = list(itertools.product((0, 1, 2), (0, None), (1, 2)))
@@ -333,7 +341,7 @@ def check(ctx):
                 if n == 1 and (b, s) != (1, None):
                     continue            # one process: no message is ever sent, the communication settings are irrelevant
                 specs.append(dict(n=n, bcast=b, short=s, threads=t, vidx=allv))
-    run_box(ctx, box, specs, jobs=16, deadline=deadline, case_timeout=8 if quick else 12, launch_timeout=60 if quick else 700, batch=16 if quick else 32)
+    run_box(ctx, box, specs, jobs=16, deadline=deadline, case_timeout=8 if quick else 30, launch_timeout=60 if quick else 900, batch=16 if quick else 32)
     for obj, msg in box.violations[:8]:
         rp = ctx.write_replay('n%d-b%d-s%s-t%d-%s' % (obj['n'], obj['bcast'], obj['short'], obj['threads'], '_'.join(map(str, obj['case']))), obj)
         ctx.violation(rp, msg[:1500])
